@@ -64,3 +64,35 @@ pub fn replay_cases(ctx: &Ctx) -> Option<Vec<serde_json::Value>> {
   }
   Some(cases)
 }
+
+/// Options of `torrent create` that add or drop metadata but must not influence what a property's
+/// oracle judges (piece hashes, file list, lengths, where the file is written): a random subset
+/// rides along with CLI cases so that a rule is not only exercised in the company of the same few
+/// options. `avoid` names options the caller already sets or whose effect it judges.
+pub fn create_noise(rng: &mut crate::rng::Rng, avoid: &[&str]) -> Vec<String> {
+  let pool: [(&str, &[&str]); 12] = [
+    ("--announce", &["--announce", "http://tracker.example:8080/announce"]),
+    ("--announce-tier", &["--announce-tier", "http://a.example/announce,udp://b.example:6969"]),
+    ("--comment", &["--comment", "made for a check"]),
+    ("--node", &["--node", "router.example.com:6881", "--node", "[2001:db8::1]:6881"]),
+    ("--no-created-by", &["--no-created-by"]),
+    ("--no-creation-date", &["--no-creation-date"]),
+    ("--private", &["--private", "--allow", "private-trackerless"]),
+    ("--source", &["--source", "SRC"]),
+    ("--update-url", &["--update-url", "https://feed.example/update"]),
+    ("--md5", &["--md5"]),
+    ("--peer", &["--link", "--peer", "peer.example:51413"]),
+    ("--sort-by", &["--sort-by", "size:descending"]),
+  ];
+  let mut out = Vec::new();
+  if rng.chance(1, 3) {
+    return out; // a third of the cases stay plain
+  }
+  for (name, args) in pool.iter() {
+    if avoid.contains(name) || !rng.chance(1, 4) {
+      continue;
+    }
+    out.extend(args.iter().map(|s| s.to_string()));
+  }
+  out
+}
